@@ -85,6 +85,29 @@ type c18Entry struct {
 	Backup     []c18Part `json:"backup,omitempty"`
 	BackupFmt  int       `json:"backup_fmt,omitempty"` // 0 plain actions, 1 spaced actions, 2 printf, 3 surrounding blanks
 	Interval   bool      `json:"interval,omitempty"`   // writes an (irrelevant for once/check) interval
+	// dimensions added by the generator-domain audit
+	Schedule     bool           `json:"schedule,omitempty"`      // writes an (irrelevant) cron schedule
+	EmptyLists   bool           `json:"empty_lists,omitempty"`   // absent filter lists are written as explicit empty lists
+	Platforms    []string       `json:"platforms,omitempty"`     // `platforms:` list (only these entries of an index are copied)
+	RefFilters   []c18RefFilter `json:"ref_filters,omitempty"`   // referrerFilters
+	RateLimitMin int            `json:"ratelimit_min,omitempty"` // ratelimit.min
+	SrcForm      string         `json:"src_form,omitempty"`      // image: "" tag | digest | tagdigest | default (no tag = latest)
+	TgtDefault   bool           `json:"tgt_default,omitempty"`   // image: target written without a tag (= latest)
+	TgtTmpl      bool           `json:"tgt_tmpl,omitempty"`      // target's last path element rendered as a Go template
+	SrcDir       bool           `json:"src_dir,omitempty"`       // source is an OCI layout (ocidir://)
+	TgtDir       bool           `json:"tgt_dir,omitempty"`       // target is an OCI layout (ocidir://)
+}
+
+// c18RefFilter is one referrerFilters element.
+type c18RefFilter struct {
+	ArtifactType string            `json:"artifact_type,omitempty"`
+	Annotations  map[string]string `json:"annotations,omitempty"`
+}
+
+// c18HostCfg are per-registry client settings written into creds.
+type c18HostCfg struct {
+	BlobChunk int `json:"blob_chunk,omitempty"`
+	BlobMax   int `json:"blob_max,omitempty"`
 }
 
 type c18Defaults struct {
@@ -93,11 +116,17 @@ type c18Defaults struct {
 	MediaTypes []string  `json:"media_types,omitempty"`
 	Backup     []c18Part `json:"backup,omitempty"`
 	BackupFmt  int       `json:"backup_fmt,omitempty"`
+	// audit additions
+	Cache        bool           `json:"cache,omitempty"` // cacheCount + cacheTime
+	RefFilters   []c18RefFilter `json:"ref_filters,omitempty"`
+	RateLimitMin int            `json:"ratelimit_min,omitempty"`
+	Extension    bool           `json:"extension,omitempty"` // an x-* user extension field at top level
 }
 
 // c18Change is one change of the source population between two runs.
 type c18Change struct {
-	Op   string `json:"op"` // move | add | delete
+	Op   string `json:"op"`             // move | add | delete
+	Host string `json:"host,omitempty"` // "" = source population; "src" | "tgt" = drift of a target repository on that registry
 	Repo string `json:"repo"`
 	Tag  string `json:"tag"`
 	Img  int    `json:"img"`
@@ -106,6 +135,8 @@ type c18Change struct {
 type c18Step struct {
 	Cmd     string      `json:"cmd"` // once | check
 	Changes []c18Change `json:"changes,omitempty"`
+	Missing bool        `json:"missing,omitempty"` // once --missing
+	Abort   bool        `json:"abort,omitempty"`   // --abort-on-error
 }
 
 type c18Style struct {
@@ -124,6 +155,10 @@ type c18Case struct {
 	Entries []c18Entry      `json:"entries"`
 	Steps   []c18Step       `json:"steps"`
 	Style   c18Style        `json:"style"`
+	// audit additions
+	SrcCfg      c18HostCfg `json:"src_cfg"`
+	TgtCfg      c18HostCfg `json:"tgt_cfg"`
+	RateHeaders bool       `json:"rate_headers,omitempty"` // the source registry sends RateLimit-* headers (plenty remaining)
 }
 
 // ------------------------------------------------------------------ constants
@@ -173,11 +208,9 @@ var c18BackupTemplates = [][]c18Part{
 // ------------------------------------------------------------------ generator
 
 func c18ImgOptions() imggen.Options {
-	// BlobEntries stay off: ImageCopy fails on an image in which a blob is an index entry of an unknown media type
-	// and also a layer elsewhere (the failed "try it as a manifest" attempt poisons the shared seen-map entry); a
-	// failing copy is outside C18 (a failed backup copy is only warned about, by design).
-	return imggen.Options{MaxDepth: 2, Schema1: true, Artifacts: true, Foreign: false, BlobEntries: false, InlineData: true,
-		Referrers: true, DigestTags: true, ExtraTags: false, ExtHost: "ext.example.test", MaxLayers: 2, MaxEntries: 3}
+	// foreign layers are generated but never fetched (includeExternal is not set: the generated urls are https)
+	return imggen.Options{MaxDepth: 2, Schema1: true, Artifacts: true, Foreign: true, BlobEntries: true, InlineData: true,
+		Referrers: true, DigestTags: true, Sha512: true, ExtraTags: false, ExtHost: "ext.example.test", MaxLayers: 2, MaxEntries: 3}
 }
 
 // c18Pick draws n distinct elements of pool (n <= len(pool)).
@@ -535,7 +568,94 @@ func c18Gen(t *rapid.T) c18Case {
 		e.MediaTypes = c18GenMediaTypes(t, "e_mt", 2)
 		e.Backup, e.BackupFmt = c18GenBackup(t, "e_bak", 3)
 		e.Interval = c18Chance(t, "e_interval", 1)
+		// --- dimensions added by the generator-domain audit (drawn last so that older draws keep their meaning)
+		e.Schedule = c18Chance(t, "e_schedule", 1)
+		e.EmptyLists = c18Chance(t, "e_emptylists", 1)
+		if e.Platform == "" && c18Chance(t, "e_plats", 1) {
+			pool := append(append([]string{}, platPool...), c18Platforms...)
+			e.Platforms = c18Pick(t, "e_platsv", pool, rapid.IntRange(1, 2).Draw(t, "e_nplats"))
+		}
+		e.RefFilters = c18GenRefFilters(t, "e_rf", 2)
+		if c18Chance(t, "e_rl", 1) {
+			e.RateLimitMin = 10
+		}
+		if e.Type == "image" {
+			switch c18Bits(t, "e_srcform", 3) {
+			case 5:
+				e.SrcForm = "digest"
+			case 6:
+				e.SrcForm = "tagdigest"
+			case 7:
+				if c18Contains(tags, "latest") {
+					e.SrcForm, e.SrcTag = "default", "latest"
+					if e.TgtTag == "absent" {
+						e.TgtTag = "latest"
+					}
+				}
+			}
+			if e.SrcTag == "absent" {
+				e.SrcForm = ""
+			}
+			if c18Chance(t, "e_tgtdefault", 1) {
+				e.TgtDefault, e.TgtTag = true, "latest"
+			}
+		}
+		if e.Type != "registry" {
+			e.TgtTmpl = c18Chance(t, "e_tgttmpl", 1)
+			switch c18Bits(t, "e_dir", 3) {
+			case 5:
+				e.TgtDir = true
+			case 6:
+				e.SrcDir = true
+			case 7:
+				e.SrcDir, e.TgtDir = true, true
+			}
+			if e.SrcRepo == "ghost/none" {
+				e.SrcDir = false
+			}
+			if e.SrcDir || e.TgtDir {
+				e.SameHost = false
+			}
+			if e.SrcDir {
+				e.SrcForm = ""
+			}
+			if e.TgtDir {
+				// a layout reference without a tag has an empty .Ref.Tag (its "latest" is implicit): not generated
+				e.TgtDefault = false
+				if e.TgtTag == "" {
+					e.TgtTag = "latest"
+				}
+			}
+		}
 		c.Entries = append(c.Entries, e)
+	}
+	// sequential runs may list the same step twice (the second one has nothing left to do)
+	if c.Def.Parallel == 0 && c18Chance(t, "dupentry", 1) {
+		c.Entries = append(c.Entries, c.Entries[rapid.IntRange(0, len(c.Entries)-1).Draw(t, "dupwhich")])
+	}
+	c.Def.Cache = c18Chance(t, "d_cache", 2)
+	c.Def.RefFilters = c18GenRefFilters(t, "d_rf", 1)
+	if c18Chance(t, "d_rl", 1) {
+		c.Def.RateLimitMin = 10
+	}
+	c.Def.Extension = c18Chance(t, "d_ext", 1)
+	c.RateHeaders = rapid.Bool().Draw(t, "rateheaders")
+	cfgs := []c18HostCfg{{}, {}, {}, {}, {}, {BlobChunk: 16, BlobMax: 8}, {BlobChunk: 64, BlobMax: 32}, {BlobMax: -1}}
+	c.SrcCfg, c.TgtCfg = cfgs[c18Bits(t, "srccfg", 3)], cfgs[c18Bits(t, "tgtcfg", 3)]
+	// an OCI layout reference has no registry / repository: such targets use tag-only backup names
+	tagOnly := func(parts []c18Part) []c18Part {
+		for _, p := range parts {
+			if p.K == "registry" || p.K == "repo" {
+				return c18BackupTemplates[0]
+			}
+		}
+		return parts
+	}
+	for i := range c.Entries {
+		if c.Entries[i].TgtDir {
+			c.Entries[i].Backup = tagOnly(c.Entries[i].Backup)
+			c.Def.Backup = tagOnly(c.Def.Backup)
+		}
 	}
 
 	// a configured platform fails on the (platform-less) referrers fallback indexes that a source without the
@@ -629,7 +749,14 @@ func c18Gen(t *rapid.T) c18Case {
 		return "once"
 	}
 	c.Steps = append(c.Steps, c18Step{Cmd: cmd("cmd1", 1)})
+	nSteps := 1
 	if c18Chance(t, "second", 5) {
+		nSteps = 2
+		if c18Chance(t, "third", 2) {
+			nSteps = 3
+		}
+	}
+	for si := 1; si < nSteps; si++ {
 		st := c18Step{Cmd: cmd("cmd2", 1)}
 		nCh := rapid.SampledFrom([]int{0, 1, 1, 2, 3}).Draw(t, "nchange")
 		for i := 0; i < nCh; i++ {
@@ -651,9 +778,53 @@ func c18Gen(t *rapid.T) c18Case {
 			}
 			st.Changes = append(st.Changes, ch)
 		}
+		// drift of the target between two runs: a mirrored or foreign tag is retagged or removed there
+		if len(c.Tgt) > 0 && c18Chance(t, "drift", 2) {
+			tr := c.Tgt[rapid.IntRange(0, len(c.Tgt)-1).Draw(t, "driftrepo")]
+			ch := c18Change{Host: tr.Host, Repo: tr.Name, Img: img("driftimg"), Op: "move"}
+			if len(tr.Tags) > 0 && rapid.Bool().Draw(t, "driftown") {
+				ch.Tag = tr.Tags[rapid.IntRange(0, len(tr.Tags)-1).Draw(t, "drifttag")].Tag
+			} else {
+				ch.Tag = rapid.SampledFrom(c18TagPool).Draw(t, "drifttagv")
+			}
+			if c18Chance(t, "driftdel", 3) {
+				ch.Op = "delete"
+			}
+			st.Changes = append(st.Changes, ch)
+		}
 		c.Steps = append(c.Steps, st)
 	}
+	for i := range c.Steps {
+		if c.Steps[i].Cmd == "once" {
+			c.Steps[i].Missing = c18Chance(t, "missing", 1)
+		}
+		c.Steps[i].Abort = c18Chance(t, "abort", 1)
+	}
 	return c
+}
+
+var c18RefArtTypes = []string{"application/vnd.example.sbom", "application/vnd.example.sig", rm.MTOCIEmpty, rm.MTOCIConfig}
+
+// c18GenRefFilters draws a referrerFilters list (nil with probability 1-eighths/8).
+func c18GenRefFilters(t *rapid.T, label string, eighths int) []c18RefFilter {
+	if !c18Chance(t, label+"_has", eighths) {
+		return nil
+	}
+	out := []c18RefFilter{}
+	n := rapid.IntRange(1, 2).Draw(t, label+"_n")
+	for i := 0; i < n; i++ {
+		var f c18RefFilter
+		k := c18Bits(t, label+"_kind", 2)
+		if k != 1 {
+			f.ArtifactType = rapid.SampledFrom(c18RefArtTypes).Draw(t, label+"_at")
+		}
+		if k == 1 || k == 3 {
+			key := rapid.SampledFrom([]string{"org.example.a", "org.example.b", "k"}).Draw(t, label+"_ak")
+			f.Annotations = map[string]string{key: rapid.SampledFrom([]string{"", "v1", "v2"}).Draw(t, label+"_av")}
+		}
+		out = append(out, f)
+	}
+	return out
 }
 
 // ------------------------------------------------------------ YAML rendering
@@ -663,6 +834,68 @@ func c18Gen(t *rapid.T) c18Case {
 type c18Names struct {
 	SrcAddr, TgtAddr string // 127.0.0.1:port
 	SrcName, TgtName string // registry names used in references
+	DirRoot          string // scratch directory below which OCI layouts live (src/<repo>, tgt/<repo>)
+}
+
+// c18DirKey is the snapshot key of an OCI layout ("src/<repo>" or "tgt/<repo>").
+// Repository names are flattened so that no layout lies inside another one.
+func c18DirKey(side, repo string) string { return side + "/" + strings.ReplaceAll(repo, "/", "_") }
+
+// c18EntryDigest is the digest an image entry's source tag has in the initial source population.
+func c18EntryDigest(c c18Case, e c18Entry) string {
+	for _, r := range c.Src {
+		if r.Name != e.SrcRepo {
+			continue
+		}
+		for _, tr := range r.Tags {
+			if tr.Tag == e.SrcTag && tr.Img >= 0 && tr.Img < len(c.Images) {
+				g := c.Images[tr.Img]
+				return g.Nodes[g.Root].Digest
+			}
+		}
+	}
+	return ""
+}
+
+// c18SrcTgt renders the source and target strings of an entry.
+func c18SrcTgt(c c18Case, e c18Entry, n c18Names) (src, tgt string) {
+	srcBase := c18Ref(n.SrcName, e.SrcRepo, "")
+	if e.SrcDir {
+		srcBase = "ocidir://" + n.DirRoot + "/" + c18DirKey("src", e.SrcRepo)
+	}
+	tgtRepo := e.TgtRepo
+	if e.TgtTmpl {
+		if i := strings.LastIndexByte(tgtRepo, '/'); i >= 0 {
+			tgtRepo = tgtRepo[:i+1] + `{{ lower "` + strings.ToUpper(tgtRepo[i+1:]) + `" }}`
+		}
+	}
+	tgtBase := c18Ref(n.name(e.tgtHost()), tgtRepo, "")
+	if e.TgtDir {
+		tgtBase = "ocidir://" + n.DirRoot + "/" + c18DirKey("tgt", tgtRepo)
+	}
+	switch e.Type {
+	case "image":
+		dig := c18EntryDigest(c, e)
+		switch {
+		case e.SrcForm == "digest" && dig != "":
+			src = srcBase + "@" + dig
+		case e.SrcForm == "tagdigest" && dig != "":
+			src = srcBase + ":" + e.SrcTag + "@" + dig
+		case e.SrcForm == "default":
+			src = srcBase
+		default:
+			src = srcBase + ":" + e.SrcTag
+		}
+		tgt = tgtBase
+		if !e.TgtDefault {
+			tgt += ":" + e.TgtTag
+		}
+	case "repository":
+		src, tgt = srcBase, tgtBase
+	default:
+		src, tgt = n.SrcName, c18Ref(n.TgtName, e.TgtRepo, "")
+	}
+	return src, tgt
 }
 
 func (n c18Names) name(host string) string {
@@ -808,17 +1041,51 @@ func (e c18Entry) tgtHost() string {
 	return "tgt"
 }
 
+func c18YAMLRefFilters(sb *strings.Builder, st c18Style, indent string, fs []c18RefFilter) {
+	if len(fs) == 0 {
+		return
+	}
+	fmt.Fprintf(sb, "%sreferrerFilters:\n", indent)
+	for _, f := range fs {
+		first := "- "
+		if f.ArtifactType != "" {
+			fmt.Fprintf(sb, "%s  %sartifactType: %s\n", indent, first, c18Q(st, f.ArtifactType))
+			first = "  "
+		}
+		if len(f.Annotations) > 0 {
+			fmt.Fprintf(sb, "%s  %sannotations:\n", indent, first)
+			for _, k := range c18SortedKeys(f.Annotations) {
+				fmt.Fprintf(sb, "%s      %s: %s\n", indent, c18Q(c18Style{Quote: st.Quote % 2}, k), c18Q(c18Style{Quote: st.Quote % 2}, f.Annotations[k]))
+			}
+		}
+	}
+}
+
 // c18YAML renders the regsync configuration of a case.
 func c18YAML(c c18Case, n c18Names) string {
 	st := c.Style
+	qq := c18Style{Quote: st.Quote % 2}
 	var sb strings.Builder
+	if c.Def.Extension {
+		sb.WriteString("x-verif: &ext\n  note: user extension fields are ignored\n")
+	}
 	sb.WriteString("version: 1\ncreds:\n")
-	for _, h := range [][2]string{{n.SrcName, n.SrcAddr}, {n.TgtName, n.TgtAddr}} {
+	for i, h := range [][2]string{{n.SrcName, n.SrcAddr}, {n.TgtName, n.TgtAddr}} {
 		fmt.Fprintf(&sb, "  - registry: %s\n", c18Q(st, h[0]))
 		if h[0] != h[1] {
 			fmt.Fprintf(&sb, "    hostname: %s\n", c18Q(st, h[1]))
 		}
 		sb.WriteString("    tls: disabled\n")
+		cfg := c.SrcCfg
+		if i == 1 {
+			cfg = c.TgtCfg
+		}
+		if cfg.BlobChunk != 0 {
+			fmt.Fprintf(&sb, "    blobChunk: %d\n", cfg.BlobChunk)
+		}
+		if cfg.BlobMax != 0 {
+			fmt.Fprintf(&sb, "    blobMax: %d\n", cfg.BlobMax)
+		}
 	}
 	sb.WriteString("defaults:\n  skipDockerConfig: true\n")
 	if c.Def.Parallel > 0 {
@@ -827,27 +1094,29 @@ func c18YAML(c c18Case, n c18Names) string {
 	c18YAMLSw(&sb, "  ", c.Def.Sw)
 	c18YAMLList(&sb, st, "  ", "mediaTypes", c.Def.MediaTypes)
 	if len(c.Def.Backup) > 0 {
-		fmt.Fprintf(&sb, "  backup: %s\n", c18Q(c18Style{Quote: st.Quote % 2}, c18TemplateText(c.Def.Backup, c.Def.BackupFmt)))
+		fmt.Fprintf(&sb, "  backup: %s\n", c18Q(qq, c18TemplateText(c.Def.Backup, c.Def.BackupFmt)))
+	}
+	if c.Def.Cache {
+		sb.WriteString("  cacheCount: 100\n  cacheTime: 5m\n")
+	}
+	c18YAMLRefFilters(&sb, st, "  ", c.Def.RefFilters)
+	if c.Def.RateLimitMin > 0 {
+		fmt.Fprintf(&sb, "  ratelimit:\n    min: %d\n    retry: 10m\n", c.Def.RateLimitMin)
 	}
 	sb.WriteString("sync:\n")
 	for _, e := range c.Entries {
-		src, tgt := "", ""
-		switch e.Type {
-		case "image":
-			src = c18Ref(n.SrcName, e.SrcRepo, e.SrcTag)
-			tgt = c18Ref(n.name(e.tgtHost()), e.TgtRepo, e.TgtTag)
-		case "repository":
-			src = c18Ref(n.SrcName, e.SrcRepo, "")
-			tgt = c18Ref(n.name(e.tgtHost()), e.TgtRepo, "")
-		default:
-			src = n.SrcName
-			tgt = c18Ref(n.TgtName, e.TgtRepo, "")
-		}
-		fmt.Fprintf(&sb, "  - source: %s\n    target: %s\n    type: %s\n", c18Q(c18Style{Quote: st.Quote % 2}, src), c18Q(c18Style{Quote: st.Quote % 2}, tgt), e.Type)
-		if e.TagsAllow != nil || e.TagsDeny != nil {
+		src, tgt := c18SrcTgt(c, e, n)
+		fmt.Fprintf(&sb, "  - source: %s\n    target: %s\n    type: %s\n", c18Q(qq, src), c18Q(qq, tgt), e.Type)
+		if e.TagsAllow != nil || e.TagsDeny != nil || e.EmptyLists {
 			sb.WriteString("    tags:\n")
 			c18YAMLList(&sb, st, "      ", "allow", e.TagsAllow)
 			c18YAMLList(&sb, st, "      ", "deny", e.TagsDeny)
+			if e.EmptyLists && e.TagsAllow == nil {
+				sb.WriteString("      allow: []\n")
+			}
+			if e.EmptyLists && e.TagsDeny == nil {
+				sb.WriteString("      deny: []\n")
+			}
 		}
 		if e.ReposAllow != nil || e.ReposDeny != nil {
 			sb.WriteString("    repos:\n")
@@ -857,13 +1126,21 @@ func c18YAML(c c18Case, n c18Names) string {
 		if e.Platform != "" {
 			fmt.Fprintf(&sb, "    platform: %s\n", c18Q(st, e.Platform))
 		}
+		c18YAMLList(&sb, st, "    ", "platforms", e.Platforms)
 		c18YAMLSw(&sb, "    ", e.Sw)
 		c18YAMLList(&sb, st, "    ", "mediaTypes", e.MediaTypes)
 		if len(e.Backup) > 0 {
-			fmt.Fprintf(&sb, "    backup: %s\n", c18Q(c18Style{Quote: st.Quote % 2}, c18TemplateText(e.Backup, e.BackupFmt)))
+			fmt.Fprintf(&sb, "    backup: %s\n", c18Q(qq, c18TemplateText(e.Backup, e.BackupFmt)))
+		}
+		c18YAMLRefFilters(&sb, st, "    ", e.RefFilters)
+		if e.RateLimitMin > 0 {
+			fmt.Fprintf(&sb, "    ratelimit:\n      min: %d\n", e.RateLimitMin)
 		}
 		if e.Interval {
 			sb.WriteString("    interval: 60m\n")
+		}
+		if e.Schedule {
+			sb.WriteString("    schedule: \"15 01 * * *\"\n")
 		}
 	}
 	return sb.String()
